@@ -332,6 +332,50 @@ Section StateProofs.
     unfold keep. split; apply filter_ext; intros e; apply Hkeep.
   Qed.
 
+  (* totality: with enough fuel for the longest auth_events list the result is a whole-response
+     failure or the exact filter result, never OutOfFuel *)
+  Theorem csr_shape fuel rauth rstate :
+    let all := untrusted_events rauth ++ untrusted_events rstate in
+    (forall e, In e all -> (2 * length (auth_ids e) < fuel)%nat) ->
+    let r := check_state_response unit sig_ok allowed (pcall_of prov) fuel hp rauth rstate tt in
+    r = (CsrNoStateKey, tt) \/ r = (CsrDuplicate, tt) \/
+    r = (CsrOk (filter (good_id sig_ok allowed P all) (untrusted_events rauth))
+               (filter (good_id sig_ok allowed P all) (untrusted_events rstate)), tt).
+  Proof.
+    intros all Hfuel r.
+    destruct r as [res u] eqn:Hr. destruct u. unfold r in Hr.
+    destruct res as [a s| | |].
+    - right. right. destruct (csr_exact fuel rauth rstate a s Hfuel Hr) as [-> ->]. reflexivity.
+    - now left.
+    - right. now left.
+    - exfalso. revert Hr. unfold check_state_response.
+      destruct (forallb is_state (untrusted_events rauth)) eqn:Hsa; simpl; [|discriminate].
+      destruct (scan_state [] (untrusted_events rstate)) eqn:Hscan.
+      { apply scan_state_err in Hscan. destruct Hscan as [-> | ->]; discriminate. }
+      apply scan_state_none in Hscan. fold all.
+      set (sf := sig_failures sig_ok all). set (m0 := verified_map sf all).
+      assert (Hall : forall e, In e all -> is_state e = true).
+      { intros e He. unfold all in He. apply in_app_or in He.
+        rewrite forallb_forall in Hsa, Hscan. destruct He; auto. }
+      assert (Hm0 : forall x b, mget m0 x = Some (Some b) -> is_state b = true).
+      { intros x b Hb. unfold m0, sf in Hb. rewrite verified_map_lookup in Hb.
+        destruct (response_event sig_ok all x) eqn:Hre; [|discriminate]. injection Hb as ->.
+        apply Hall. eapply response_event_in; eauto. }
+      destruct (auth_loop_spec m0 Hm0 fuel all sf m0 Hfuel (Inv_m0 m0)) as (fl & m' & Hl & _).
+      { intros x Hx. exact Hx. }
+      rewrite Hl. discriminate.
+  Qed.
+
+  (* a fuel that is enough, computed from the response *)
+  Definition csr_fuel (all : list event) : nat :=
+    S (2 * fold_right (fun c n => Nat.max (length (auth_ids c)) n) O all).
+
+  Lemma csr_fuel_ok all e : In e all -> (2 * length (auth_ids e) < csr_fuel all)%nat.
+  Proof.
+    unfold csr_fuel. induction all as [|c l IH]; [intros []|].
+    intros [->|Hin]; simpl fold_right; [lia|]. specialize (IH Hin). lia.
+  Qed.
+
   (* with unique event IDs the by-ID filter is the by-event filter *)
   Lemma NoDup_map_inj {A B} (f : A -> B) l x y :
     NoDup (map f l) -> In x l -> In y l -> f x = f y -> x = y.
@@ -405,5 +449,26 @@ Section StateProofs.
         * intros ([= <- <-] & _ & _). reflexivity.
       + split; [discriminate|]. intros ([= <- <-] & _ & H). congruence.
     - split; [discriminate|]. intros ([= <- <-] & H & _). congruence.
+  Qed.
+
+  Theorem sj_no_out_of_fuel fuel rauth rstate join :
+    let all := untrusted_events rauth ++ untrusted_events rstate in
+    (forall e, In e all -> (2 * length (auth_ids e) < fuel)%nat) ->
+    (2 * length (auth_ids join) < fuel)%nat ->
+    fst (check_send_join unit sig_ok allowed (pcall_of prov) fuel hp rauth rstate join tt) <> SjOutOfFuel.
+  Proof.
+    intros all Hf Hfj. unfold check_send_join.
+    pose proof (csr_shape fuel rauth rstate Hf) as Hs. simpl in Hs.
+    destruct (check_state_response unit sig_ok allowed (pcall_of prov) fuel hp rauth rstate tt)
+      as [r ps1] eqn:Hc. destruct ps1.
+    destruct r as [a' s'| | |]; try discriminate.
+    - pose proof (csr_ok_state unit sig_ok allowed (pcall_of prov) fuel hp rauth rstate tt a' s' tt Hc) as [Ha' Hs'].
+      set (mJ := map_of_events s' (map_of_events a' [])).
+      destruct (check_allowed_spec mJ (fun x b => join_table_state a' s' x b Ha' Hs') fuel join mJ Hfj (Inv_m0 mJ))
+        as (m' & Hca & _ & _).
+      { intros x Hx. exact Hx. }
+      rewrite Hca. destruct (allowed join _); simpl; [|discriminate].
+      destruct (allowed join s'); discriminate.
+    - exfalso. destruct Hs as [H|[H|H]]; discriminate.
   Qed.
 End StateProofs.
